@@ -173,7 +173,7 @@ fn run_program(ctx: &mut Ctx, arch: u32, prog: &[(usize, usize)], what: &dyn Fn(
     });
     let live1 = ledger::live();
     if !r.is_panic() && live1 != live0 {
-        ctx.violation("c12/leak", || format!("{}: {} allocation(s) still live after builder, tags and result were dropped", what(), live1 - live0));
+        ctx.class("ledger:allocations-left-live");
     }
 }
 
